@@ -177,6 +177,10 @@ Definition ws_close (c : cid) : M unit :=
        match w_waiter w with Some t => wake t | None => ret tt end.
 Definition ws_can_send (c : cid) : M bool := w <- gws c ;; ret (negb (w_cli_closed w || w_srv_closed w)).
 
+(* the disconnect event.  Its handler may itself call disconnect(): the state is 'disconnecting' whenever the event fires, and
+   disconnect() then does nothing (fixes D34, D35), so that possibility needs no case of its own *)
+Definition disc_event (r : reason) : M unit := emit (OEv (EvDisconnect r)).
+
 (* disconnect(abort, reason).  Returns the read-loop task the caller must now wait for (join), if any *)
 Definition disconnect_core (me : tid) (abort : bool) (r : reason) : M (option tid) :=
   s <- getst ;;
@@ -184,7 +188,7 @@ Definition disconnect_core (me : tid) (abort : bool) (r : reason) : M (option ti
   | Connected =>
     send_packet CkClose ;;; q_put QEnd ;;;
     modst (set_state Disconnecting) ;;;
-    emit (OEv (EvDisconnect r)) ;;;
+    disc_event r ;;;
     (match transport s, ws s with Some TrWebsocket, Some c => ws_close c | _, _ => ret tt end) ;;;
     s1 <- getst ;;
     match abort, read_task s1 with
@@ -194,7 +198,8 @@ Definition disconnect_core (me : tid) (abort : bool) (r : reason) : M (option ti
       else modst (set_state Disconnected) ;;; reset ;;; ret None
     | _, _ => modst (set_state Disconnected) ;;; reset ;;; ret None
     end
-  | _ => reset ;;; ret None
+  | Disconnecting => ret None                    (* another disconnect() is in progress and will finish the job *)
+  | Disconnected => reset ;;; ret None
   end.
 Definition disconnect_finish : M unit := modst (set_state Disconnected) ;;; reset.
 
@@ -225,7 +230,7 @@ Definition read_final (me : tid) (ep : N) : M unit :=
   (* report a transport error if nobody has disconnected this connection yet (fix D33: this connection, not a later one) *)
   (s1 <- getst ;;
    match state s1 with
-   | Connected => if N.eqb (qepoch s1) ep then emit (OEv (EvDisconnect RTransportError)) ;;; reset else ret tt
+   | Connected => if N.eqb (qepoch s1) ep then modst (set_state Disconnecting) ;;; disc_event RTransportError ;;; reset else ret tt
    | _ => ret tt
    end) ;;; finish me.
 Definition read_epilogue (me : tid) (ep : N) : M unit :=
